@@ -13,6 +13,56 @@ import typing
 from typing import Any, Dict, List, Literal, Set, Tuple, Union
 
 _enums = {}
+REC = []          # observed adapt_typehints(value, opaque hint): [name, value-json, result-json | None]
+
+
+def opaque_classes():
+    import decimal
+
+    from jsonargparse import typing as jt
+
+    return {"PositiveFloat": jt.PositiveFloat, "PositiveInt": jt.PositiveInt, "ClosedUnitInterval": jt.ClosedUnitInterval,
+            "NonNegativeInt": jt.NonNegativeInt, "Decimal": decimal.Decimal}
+
+
+def opaque_json(x):
+    import decimal
+
+    for name, cls in opaque_classes().items():
+        if type(x) is cls:
+            if isinstance(x, float):
+                return ["opaque", name, repr(float(x))]
+            if isinstance(x, int):
+                return ["opaque", name, str(int(x))]
+            if isinstance(x, decimal.Decimal):
+                return ["opaque", name, str(x)]
+    return None
+
+
+def install_recorder():
+    import jsonargparse._typehints as th
+
+    if getattr(th, "_c02_rec", False):
+        return
+    orig = th.adapt_typehints
+    by_id = {id(cls): name for name, cls in opaque_classes().items()}
+
+    def wrapper(val, typehint, **kw):
+        name = by_id.get(id(typehint))
+        if name is None:
+            return orig(val, typehint, **kw)
+        before = to_json(val)
+        try:
+            res = orig(val, typehint, **kw)
+        except BaseException:   # noqa
+            REC.append([name, before, None])
+            raise
+        REC.append([name, before, to_json(res)])
+        return res
+
+    th.adapt_typehints = wrapper
+    th._c02_rec = True
+
 
 
 def enum_cls(name, members):
@@ -128,6 +178,9 @@ def to_json(x):
         return ["enum", type(x).__name__, x.name]
     if isinstance(x, BaseException):
         return ["opaque", "exc", ""]
+    oj = opaque_json(x)
+    if oj is not None:
+        return oj
     return ["opaque", type(x).__name__, ""]
 
 
@@ -141,6 +194,45 @@ def run_query(q):
     p = ArgumentParser(exit_on_error=False)
     try:
         p.add_argument("--k", type=th)
+    except BaseException as e:   # noqa
+        return ["crash", "add_argument:" + type(e).__name__]
+    try:
+        if q["ch"] == "argv":
+            r = p.parse_args(["--k=" + q["val"][1]])
+        else:
+            r = p.parse_object({"k": mk_val(q["val"])})
+    except ArgumentError:
+        return ["rej"]
+    except SystemExit as e:
+        return ["crash", "SystemExit(%s)" % e.code]
+    except BaseException as e:   # noqa
+        return ["crash", type(e).__name__]
+    return ["ok", to_json(r.k)]
+
+
+def run_xquery(q):
+    """{"ms": [T | ["opq", name]...], "dflt": V | None, "val": V, "ch": ...}: one member = the hint, several = Union"""
+    from jsonargparse import ArgumentError, ArgumentParser
+
+    install_recorder()
+    for f in typing._cleanups:
+        f()
+    oc = opaque_classes()
+    hints = [oc[m[1]] if m[0] == "opq" else mk_ty(m) for m in q["ms"]]
+    for m, h in zip(q["ms"], hints):
+        if m[0] != "opq":
+            check_ty(m, h)
+    if len(hints) == 1:
+        th = hints[0]
+    else:
+        th = Union[tuple(hints)]
+        args = getattr(th, "__args__", ())
+        if len(args) != len(hints) or any(a is not h and a != h for a, h in zip(args, hints)):
+            raise ValueError("typing changed the Union %r -> %r" % (q["ms"], th))
+    p = ArgumentParser(exit_on_error=False)
+    kw = {} if q.get("dflt") is None else {"default": mk_val(q["dflt"])}
+    try:
+        p.add_argument("--k", type=th, **kw)
     except BaseException as e:   # noqa
         return ["crash", "add_argument:" + type(e).__name__]
     try:
@@ -237,7 +329,12 @@ def main():
                 strs_in(orc[s], nxt)
         todo = nxt
     groups = [run_group(dict(g, val=fix_enum_vals(g["val"], members_of))) for g in req.get("groups", [])]
-    sys.stdout.write("\n" + json.dumps({"obs": obs, "oracle": orc, "groups": groups}) + "\n")
+    xobs = []
+    for xq in req.get("xqueries", []):    # each: a list of queries sharing one record of opaque-member behaviour
+        del REC[:]
+        res = [run_xquery(q) for q in xq]
+        xobs.append({"obs": res, "rec": list(REC)})
+    sys.stdout.write("\n" + json.dumps({"obs": obs, "oracle": orc, "groups": groups, "xobs": xobs}) + "\n")
 
 
 main()
